@@ -11,12 +11,16 @@ RULE = ('LLE: Hypothesis draws Water + one partially miscible organic (12 alcoho
         'co-solvents/organics in a random order (2-5 chemicals), feed 10**u per chemical (extras may be zero), T in '
         '[285,355] K, P, Stream or MultiStream entry (material spread over l/L), top_chemical in chemicals+None, a '
         'scale factor 10**[-3,3], solver method (pseudo equilibrium; shgo / differential evolution in the thorough '
-        'tier) and, for the history check, 1-4 earlier calls on the same stream (same/scaled/other composition, '
-        'same/lower/higher T, own top_chemical and use_cache). Oracles: x*gamma equal in both liquids with gamma '
+        'tier) and, for the history check, 1-4 earlier calls on the same stream (same/scaled/other/sparse/dilute '
+        'composition, same/lower/higher T, own top_chemical and use_cache; in a quarter of the cases the final feed '
+        'is first moved next to a one-liquid/two-liquid boundary located by bisection with the code under test and '
+        'the last earlier call is that feed at another T). Oracles: x*gamma equal in both liquids with gamma '
         'from thermo.Gamma evaluated by the check; scaled feed gives proportional flows; w_top(L) >= w_top(l); '
         'use_cache=True on the stream equals use_cache=False on an identically treated clone; both equal a '
         'history-free stream holding the same material. SLE: solute (Tetradecanol, LacticAcid, AceticAcid, Glucose '
-        'with the doctest Cn models, Phenol, Naphthalene, Dodecanol) in 0-3 solvents, T in [250,450] K or H of such '
+        'with the doctest Cn models, Phenol, Naphthalene, Dodecanol) in a package with 1-3 solvents (a mixture always '
+        'has a liquid solvent, a fifth of the cases is the solute alone) and optionally a second solute, ideal or '
+        'Dortmund activity model, T in [250,450] K or H of such '
         'a T, solubility given or computed, fresh or after 1-4 earlier calls (other T/H, given solubility, pure '
         'solute before the solvent is added, other composition, other solute). Oracles: only the solute rows '
         'change and its total is kept; x_solute(liquid) <= given solubility or the eutectic formula with the '
@@ -32,6 +36,15 @@ ASSUMPTIONS = ['all chemicals come from the offline database with Dortmund-UNIFA
                'identical, proportional or independently drawn, so that the solver cache tolerances (1e-3 K, 1e-5) '
                'are never straddled',
                'a pure-solute SLE call exactly at Tm is not generated (the property leaves it open)']
+
+REQUIRED_CELLS = {'quick': ['lle:two_liquids', 'lle:one_liquid', 'lle:top=present', 'lle:top=none', 'lle:kind=S',
+                            'lle:kind=M', 'lle.hist:boundary-feed=found', 'lle.hist:mem=none,dT=lower,dz=same',
+                            'lle.hist:mem=none,dT=same,dz=diff', 'lle.hist:mem=none,dT=higher,dz=diff',
+                            'lle.hist:mem=K,dT=lower,dz=same', 'sle:pure', 'sle:solubility-clause-applied:nonideal=0',
+                            'sle.hist:spec=T,sol=computed,hist=plain', 'sle.hist:spec=H,sol=computed,hist=plain',
+                            'sle.hist:spec=T,sol=given,hist=plain', 'sle.hist:spec=T,sol=computed,hist=pure'],
+                  'thorough': ['lle:method=shgo', 'lle:method=de']}
+WALL = {'quick': 540, 'thorough': 3300}
 
 T_LO, T_HI = 285.0, 355.0
 ORGANICS = ['Butanol', 'Hexane', 'Octane', 'EthylAcetate', 'Isobutanol', 'Pentanol', 'Hexanol', 'Octanol',
@@ -335,6 +348,17 @@ def prop_lle_fresh(ch, ctx):
     _lle_fresh(ch, ctx, ['pseudo equilibrium'])
 
 
+def prop_lle_call(ch, ctx):
+    """Replay-only (0 generated cases): the call of lle_fresh and nothing else, so that the pinned input of the
+    exception finding C15-F3 does not turn into the iso-activity finding C15-F1 once the exception is repaired."""
+    names, org, th, kind, T, P, feed, spread, top = draw_common(ch)
+    method = ch.choice('method', ['pseudo equilibrium'])
+    ch.logfloat('scale', -3.0, 3.0)
+    tmo.settings.set_thermo(th)
+    s = make_stream(th, kind, np.array(feed, float), spread, T, P or 101325.0)
+    lle_call(ctx, s, T, P, top, True, 'method=pseudo,hist=0', method)
+
+
 def prop_lle_global(ch, ctx):
     _lle_fresh(ch, ctx, ['shgo', 'differential evolution'])
 
@@ -484,6 +508,7 @@ PROPS = {
     'lle_fresh': (prop_lle_fresh, 2000, 30000, {'shrink': False}),
     'lle_history': (prop_lle_history, 1200, 12000, {'shrink': False}),
     'lle_global': (prop_lle_global, 0, 200, {'shrink': False}),
+    'lle_call': (prop_lle_call, 0, 0, {'shrink': False}),
 }
 
 
@@ -497,7 +522,8 @@ SOLUTES = ['Tetradecanol', 'LacticAcid', 'AceticAcid', 'Glucose', 'Phenol', 'Nap
 SOLVENTS = ['Water', 'Methanol', 'Ethanol', 'Octanol', 'Hexane', 'Acetone', 'Toluene']
 GAMMA_MAX = 1e3          # DESIGN section 9: gamma > 1e3 is outside the quantified domain
 NONIDEAL_GAMMA = 10.0    # region tag: solute gamma (at infinite dilution or in the returned liquid) >= 10
-SOL_RTOL = 1e-4          # SLE._solve_x iterates x with xtol=1e-6 (Aitken); two orders of head-room
+SOL_RTOL = 1e-4          # SLE._solve_x iterates x with an absolute xtol=1e-6 (Aitken step size): allow
+SOL_ATOL = 2e-5          # 1e-4 relative + 20 xtol absolute (observed on saturated answers: 2e-5 relative)
 _sle_thermo = {}
 _glucose = []
 
@@ -692,8 +718,8 @@ def sle_clauses(fails, ctx, th, names, solute, before, s, call, region, act_coef
     region = f'{region},nonideal={nonideal}'
     xs = eutectic(T, c.Tm, c.Hfus, c.Cn.l(T), c.Cn.s(T), gam)
     if sol1[i] > 0:
-        ctx.metric_max('sle.solubility:computed:rel-excess(saturated)', xl / xs - 1.0)
-    fails.check(xl <= xs * (1.0 + SOL_RTOL) + 1e-12, f'sle.solubility|{region}|exceeds',
+        ctx.metric_max(f'sle.solubility:computed:rel-excess(saturated):{region.split(",", 2)[2]}', xl / xs - 1.0)
+    fails.check(xl <= xs * (1.0 + SOL_RTOL) + SOL_ATOL, f'sle.solubility|{region}|exceeds',
                 lambda: f'x_solute(liquid)={xl!r} > eutectic solubility {xs!r} (gamma={gam!r}, T={T}); '
                         f'l={liq1.tolist()} s={sol1.tolist()}')
 
@@ -754,18 +780,18 @@ class SolverMemory:
     def __init__(self):
         self.ncalls = 0
         self.saw_solute_alone = False      # an earlier computed call saw one chemical only
-        self.mix_set = None                # chemicals present at the last computed call on a new mixture
-        self.given_since = False           # a given-solubility call came after that and the set did not change
-        self.mix_solute = None             # solute named by that call
+        self.mix_set = None                # chemicals present at the last computed call on a mixture
+        self.given_since = False           # a given-solubility call came after the mixture last changed
+        self.named_since = set()           # solutes named by computed calls since the mixture last changed
 
     def computed(self, present, solute):
         self.ncalls += 1
-        if present == self.mix_set:
-            return
         if len(present) == 1:
             self.saw_solute_alone = True
-        else:
-            self.mix_set, self.given_since, self.mix_solute = present, False, solute
+            return
+        if present != self.mix_set:
+            self.mix_set, self.given_since, self.named_since = present, False, set()
+        self.named_since.add(solute)
 
     def given(self):
         self.ncalls += 1
@@ -778,7 +804,7 @@ class SolverMemory:
                 out.append('pure')
             if self.mix_set == present and self.given_since:
                 out.append('given')
-            if self.mix_set == present and self.mix_solute != solute:
+            if self.mix_set == present and self.named_since - {solute}:
                 out.append('osol')
         return '+'.join(out) or 'plain'
 
